@@ -119,13 +119,13 @@ taskreport {report_id} "{report_id}" {{
 }}
 """
 
+    # Read original file first: if it cannot be read (or decoded) nothing has been created yet
+    with open(tjp_path) as f:
+        original_content = f.read()
+
     # Create temporary file with random suffix (safe for concurrent execution)
     temp_fd, temp_path = tempfile.mkstemp(suffix=".tjp", prefix="plan_auto_")
     temp_file = Path(temp_path)
-
-    # Read original file
-    with open(tjp_path) as f:
-        original_content = f.read()
 
     # Write combined content and close file descriptor
     with os.fdopen(temp_fd, "w") as f:
